@@ -168,7 +168,7 @@ impl Engine for C01 {
         let mut v = vec![
             Phase::new("kind-agnostic expressions of <=2 constructors x 28 contexts", json!({"kind":"agnostic","k":2})),
             Phase::new("kind-agnostic expressions of 3 constructors x 28 contexts", json!({"kind":"agnostic","k":3})),
-            Phase::new("annotation matrix: 17 keys x 14 value shapes x 9 positions x 8 targets", json!({"kind":"annotations"})),
+            Phase::new("annotation matrix: 17 keys x 15 value shapes x 9 positions x 8 targets", json!({"kind":"annotations"})),
             Phase::new("two modules: function bodies <=2 x arguments <=2 x 12 use sites", json!({"kind":"two","kb":2,"ka":2})),
         ];
         for (i, n) in crate::frags::NAMES.iter().enumerate() {
